@@ -30,6 +30,15 @@ CLAIMED = {
     "C06": ("lock-region pairing and call-graph who-may-call",
             "reader holds the manifest read lock from list copy to last file open while compaction unlinks under the write lock; an "
             "open reader never returns to path-addressed storage", "5/C06"),
+    "C17": ("four-way sibling-table agreement, verify-before-use dominance, codec table inversion, read-site integrity flow, panic-source enumeration",
+            "segment file table agrees across write/hash/compare/remove with matching checksum names; checksum comparison dominates "
+            "every content read at open and a mismatch is an error; fast-field codec tables inverse and exhaustive; every file read on "
+            "the open path is integrity-checked first (manifest: known finding); pre-verification parsers have no unreasoned panic source",
+            "5/C17"),
+    "C28": ("taint/sanitiser flow over MIR (deserialised paths must be re-rooted), constructor who-may-call, path-builder provenance",
+            "a manifest loaded from disk is re-rooted at the opened directory before it is published; SegmentPaths are built only by "
+            "directory::segment_paths as root.join(name-with-id); every root handed to the path builders derives from the opened "
+            "directory", "5/C28"),
 }
 
 NA = {
